@@ -80,6 +80,14 @@ def real_cases(ctx, rng, nkeys, nflip):
     cases = []
     secrets = [1, 2, 3, N256 - 1, N256 - 2, 2 ** 128, 2 ** 255]
     keys = secrets[:min(nkeys, len(secrets))] + [rng.randrange(1, N256) for _ in range(max(0, nkeys - len(secrets)))]
+    # at least two fresh keys of each parity whose negation does not occur elsewhere in the run
+    want = {0: 2, 1: 2}
+    while want[0] or want[1]:
+        d_ = rng.randrange(1, N256)
+        par = (d_ * pecc.G).parity
+        if want[par]:
+            want[par] -= 1
+            keys.append(d_)
     msgs = [b"\x00" * 32, b"\xff" * 32]
     for i, d in enumerate(keys):
         # (how the key object would serialise its public key -- compressed or not, which network -- is irrelevant to BIP340)
@@ -87,6 +95,14 @@ def real_cases(ctx, rng, nkeys, nflip):
         m = msgs[i] if i < len(msgs) else bytes(rng.randrange(256) for _ in range(32))
         aux = b"\x00" * 32 if i % 3 == 0 else bytes(rng.randrange(256) for _ in range(32))
         # (no hook on the library's nonce helper: the specified nonce is recomputed below from the tagged hashes)
+        if i % 2 == 1 or pk.point.parity:
+            # other uses of the same key material in this process come first: an ECDSA verification under the full (both-parity)
+            # public key, a multiplication of the odd-y and the even-y form, a verification call with a message of another length
+            z_ = rng.randrange(2 ** 256)
+            outcome(pk.point.verify, z_, pk.sign(z_))
+            outcome(lambda: 3 * pk.point)
+            outcome(lambda: 3 * pk.point.even_point())
+            outcome(pk.point.verify_schnorr, bytes(40), pecc.SchnorrSignature.parse(bytes(31) + b"\x01" + bytes(31) + b"\x01"))
         if i % 2 == 0:
             # history independence: an earlier signature of the same message with ANOTHER aux on the same object comes first
             outcome(pk.sign_schnorr, m, bytes(32) if aux != bytes(32) else b"\x01" * 32)
